@@ -1,7 +1,7 @@
 SPECIFICATION Spec
 CONSTANTS Dims = {1, 2, 3}
   Ranks = {0, 1, 2, 3}
-  MaxIter = 4
+  MaxIter = 3
 INVARIANT Sorted
 PROPERTY EvalsPerIteration
 PROPERTY BestNeverWorsens
